@@ -251,11 +251,15 @@ func c15File(np int) (*parquet.File, error) {
 func c15AsyncMain(args []string) error {
 	seed, _ := strconv.ParseUint(argValue(args, "--seed", "1"), 10, 64)
 	reps, _ := strconv.Atoi(argValue(args, "--reps", "1"))
+	burst, _ := strconv.Atoi(argValue(args, "--burst", "1")) // multiplier for behaviours with back-to-back seeks
+	hangMs, _ := strconv.Atoi(argValue(args, "--hang-ms", "5000"))
+	first, _ := strconv.Atoi(argValue(args, "--first-trace", "1"))
 	scs, err := readScenarios[c15AsyncScenario](argValue(args, "--scenarios", "-"))
 	if err != nil {
 		return err
 	}
 	lg := &c15Log{tr: newTracer(os.Stdout)}
+	lg.tr.t = first - 1
 	defer lg.tr.flush()
 	parquet.VerifSetPoison(true)
 	for si := range scs {
@@ -264,7 +268,18 @@ func c15AsyncMain(args []string) error {
 		if sc.Orig != 0 {
 			rid = sc.Orig
 		}
-		for rep := 0; rep < reps; rep++ {
+		n := reps
+		prevSeek := false
+		for _, e := range sc.Order {
+			if e.E == "call" {
+				if e.Op == "seek" && prevSeek {
+					n = reps * burst // a second SeekToRow while the first may still be pending: the narrow windows are here
+					break
+				}
+				prevSeek = e.Op == "seek"
+			}
+		}
+		for rep := 0; rep < n; rep++ {
 			r := newRng(seed ^ uint64(rid)*0x9E3779B1 ^ uint64(rep)<<40)
 			mode, src, procs := sc.Mode, sc.Src, sc.Procs
 			if mode == "" {
@@ -283,7 +298,7 @@ func c15AsyncMain(args []string) error {
 			}()
 			select {
 			case <-done:
-			case <-time.After(20 * time.Second):
+			case <-time.After(time.Duration(hangMs) * time.Millisecond):
 				// neither goroutine made progress: a deadlock of the protocol (the trace ends with an unanswered Call)
 				lg.emit("Hang", ev{})
 				lg.mu.Lock()
